@@ -117,6 +117,8 @@ def match(pid, fail):
         return "raw-swap-inner-part-overaligned"
     if pid == "C02" and fail.get("large_array", 0) > 65536 and "decoded array length over 65536" in what:
         return "python-decode-element-guard"
+    if pid == "C05" and fail.get("check") == "gbs" and fail.get("outgrown") is True:
+        return "cpp-vector-outgrows-sizer"
     if pid == "C10" and fail.get("check") == "sizer-range" and fail.get("exception") == "error" \
             and "format requires" in what:
         # struct.error from packing the counter: the array outgrew its sizer's range
